@@ -7,14 +7,17 @@ package di
 //
 //@ func Direction.IsVertical C20 C12
 //@   mode bv
+//@   inline
 //@   ensures [bit] result == (d&2 != 0)
 //
 //@ func Direction.Axis C20
 //@   mode bv
+//@   inline
 //@   ensures [bit] bool(result) == (d&2 != 0)
 //
 //@ func Direction.SwitchAxis C20
 //@   mode bv
+//@   inline
 //@   ensures [flip-axis] (result&2 != 0) == !(d&2 != 0)
 //@   ensures [keeps-progression] result&1 == d&1
 //@   ensures [keeps-orientation] result&12 == d&12
@@ -23,6 +26,7 @@ package di
 //
 //@ func Direction.Progression C20
 //@   mode bv
+//@   inline
 //@   ensures [bit] bool(result) == (d&1 != 0)
 //
 //@ func Direction.SetProgression C20 C07
@@ -33,10 +37,12 @@ package di
 //
 //@ func Direction.HasVerticalOrientation C20
 //@   mode bv
+//@   inline
 //@   ensures [bit] result == (d&4 != 0)
 //
 //@ func Direction.IsSideways C20
 //@   mode bv
+//@   inline
 //@   ensures [bit] result == (d&2 != 0 && d&8 != 0)
 //
 //@ func Direction.SetSideways C20 C07
@@ -50,6 +56,7 @@ package di
 //
 //@ func Direction.Harfbuzz C20
 //@   mode bv
+//@   inline
 //@   ensures [ltr] implies(d&3 == 0, result == harfbuzz.LeftToRight)
 //@   ensures [rtl] implies(d&3 == 1, result == harfbuzz.RightToLeft)
 //@   ensures [ttb] implies(d&3 == 2, result == harfbuzz.TopToBottom)
